@@ -266,6 +266,11 @@ Definition dist_decode (w : Z) : option (Z * Z) :=
   else if (t =? 5) || (t =? 6) then Some (t, 0)
   else None.
 
+(* proposed repair (C18_distribution_payload_checked.diff): write_to refuses (InvalidInput) a usize payload that does not
+   fit the 56 bits below the tag instead of emitting a word that reads back as another variant *)
+Definition dist_write_fixed (t p : Z) : option Z :=
+  if dist_is_fixed t && (2 ^ 56 <=? p) then None else Some (dist_word t p).
+
 Inductive fval :=
 | VU32 (v : Z)                    (* Base2K, TorusPrecision, Rank, Dsize, Degree *)
 | VU64 (v : Z)                    (* Galois element p: i64 written as u64 *)
@@ -586,20 +591,30 @@ Definition write_bdd_o (dbg : bool) (b : bdd) : outcome * bytes :=
        else let '(o3, b3) := write_wobj_o dbg (b_ksl b) in (seq_oc (seq_oc o1 o2) o3, b1 ++ b2 ++ b3).
 
 (* ------------------------------------------------------------------------------------------------ *)
-(* THE SWITCH: which readers describe /repo.  Today: the code as it is.  When the proposed fixes are
-   applied, replace the right-hand sides by the `*_fixed` readers (one line per level). *)
+(* the code as it is today *)
+Definition current_flat : flat_reader := read_flat.
+Definition current_wobj : wobj_reader := read_wobj_with current_flat.
+Definition current_kseq : kseq_reader := read_kseq_with current_wobj.
+Definition current_cbk : cbk_reader := read_cbk_with current_kseq current_wobj.
+Definition current_bdd := read_bdd_with current_cbk current_wobj.
+Definition current_dist_writer (t p : Z) : option Z := Some (dist_word t p).
 
-Definition reader_flat : flat_reader := read_flat.
-Definition reader_wobj : wobj_reader := read_wobj_with reader_flat.
-Definition reader_kseq : kseq_reader := read_kseq_with reader_wobj.
-Definition reader_cbk : cbk_reader := read_cbk_with reader_kseq reader_wobj.
-Definition reader_bdd := read_bdd_with reader_cbk reader_wobj.
-
+(* the proposed repairs (work/proposed_fixes/C18_*.diff) *)
 Definition fixed_flat : flat_reader := read_flat_fixed.
 Definition fixed_wobj : wobj_reader := read_wobj_fixed_with fixed_flat.
 Definition fixed_kseq : kseq_reader := read_kseq_fixed_with fixed_wobj.
 Definition fixed_cbk : cbk_reader := read_cbk_with fixed_kseq fixed_wobj.
 Definition fixed_bdd := read_bdd_with fixed_cbk fixed_wobj.
+
+(* THE SWITCH: which model describes /repo (used by run_c18).  Today: the code as it is.  When a proposed fix has
+   been applied to /repo, change `current_X` into `fixed_X` on the corresponding line (and the statement of
+   C18_model_in_force in Props/C18.v); every theorem about `current_*` and `fixed_*` stays as it is. *)
+Definition reader_flat : flat_reader := current_flat.          (* C18_hal_read_from_checked.diff *)
+Definition reader_wobj : wobj_reader := read_wobj_with reader_flat.   (* C18_core_wrappers_commit_after.diff: read_wobj_fixed_with reader_flat *)
+Definition reader_kseq : kseq_reader := read_kseq_with reader_wobj.   (* C18_binfhe_dist_commit_after.diff: read_kseq_fixed_with reader_wobj *)
+Definition reader_cbk : cbk_reader := read_cbk_with reader_kseq reader_wobj.
+Definition reader_bdd := read_bdd_with reader_cbk reader_wobj.
+Definition dist_writer : Z -> Z -> option Z := current_dist_writer.   (* C18_distribution_payload_checked.diff: dist_write_fixed *)
 
 (* ------------------------------------------------------------------------------------------------ *)
 (* invariants and metadata (computable; the Prop versions are in Proofs/C18Flat.v)                   *)
